@@ -201,6 +201,27 @@ def unmodelled_writes(path, roots=("find_relationship_path",)):
     return found
 
 
+def stray_shared_access(path, roots=("find_relationship_path",), modelled=("find_relationship_path", "build_adjacency")):
+    """The skeleton is extracted from find_relationship_path with build_adjacency inlined.  Any OTHER method reachable from the planning entry point through
+    self.<method>() calls that reads or writes the shared attributes (a post-processing step that edits the published adjacency in place, a helper that
+    re-reads the flag ...) is outside the model: fail closed."""
+    mod = ast.parse(open(path).read())
+    cls = next(n for n in mod.body if isinstance(n, ast.ClassDef) and n.name == "SemanticGraph")
+    fns = {f.name: f for f in cls.body if isinstance(f, ast.FunctionDef)}
+    seen, todo, found = set(), list(roots), []
+    while todo:
+        name = todo.pop()
+        if name in seen or name not in fns:
+            continue
+        seen.add(name)
+        for n in ast.walk(fns[name]):
+            if isinstance(n, ast.Call) and is_self_attr(n.func) and n.func.attr in fns:
+                todo.append(n.func.attr)
+            if name not in modelled and is_self_attr(n) and n.attr in SHARED:
+                found.append((n.attr, name, getattr(n, "lineno", 0)))
+    return found
+
+
 def add_model_invalidates(path):
     """add_model must mark the adjacency dirty UNCONDITIONALLY (a top-level `self._adjacency_dirty = True`): a model can enter the join graph
     through its own relationships, as another model's target, or as the junction of a many_to_many -- the cache invariant of C15/C19
@@ -225,6 +246,9 @@ def program(repo):
             bad = alias_mutations(fn)
             if bad:
                 raise Unsupported("the shared adjacency is mutated through a local alias in %s: %s" % (fn.name, "; ".join("line %d `%s`" % b for b in bad[:3])))
+    stray = stray_shared_access(path)
+    if stray:
+        raise Unsupported("the shared adjacency is touched outside the modelled skeleton: " + ", ".join("self.%s in %s (line %d)" % e for e in stray[:4]))
     extra = unmodelled_writes(path)
     if extra:
         raise Unsupported("planning call writes state the model does not know: " + ", ".join("self.%s in %s (line %d)" % e for e in extra[:4]))
